@@ -213,3 +213,80 @@ package iscp
 //@   requires c.state != nil && c.state.cond != nil && c.state.RWMutex != nil
 //@   assert call connStatus).Swap: arg1 == connStatusClosed
 //@   assert lock wireConnMu: c.state.current == connStatusClosed   // Closed is published before waiting for the wire lock, so a reconnect loop holding it can finish
+
+// ---------------------------------------------------------------- C16: end-to-end calls
+// Same scheme as the wire reply table (C06): every ack / reply channel gets a ghost key when
+// it is made; the two tables map id -> channel keyed id (monitor invariants); only a message
+// bearing the key is ever sent on a keyed channel; keyed channels are never closed.
+
+//@ ghost func ackKey(chan *message.UpstreamCallAck) string
+//@ ghost func ackKeyed(chan *message.UpstreamCallAck) bool
+//@ ghost func replyKey(chan *message.DownstreamCall) string
+//@ ghost func replyKeyed(chan *message.DownstreamCall) bool
+
+//@ chaninv[C16] *message.UpstreamCallAck: imp(ackKeyed(ch), v.CallID == ackKey(ch))
+//@ chanopen[C16] *message.UpstreamCallAck: ackKeyed(ch)
+//@ chaninv[C16] *message.DownstreamCall: imp(replyKeyed(ch), v.RequestCallID == replyKey(ch))
+//@ chanopen[C16] *message.DownstreamCall: replyKeyed(ch)
+
+//@ lockinv[C16] Conn.upstreamCallAckMu: self.upstreamCallAckCh != nil && forall(id, string, imp(has(self.upstreamCallAckCh, id), ackKeyed(self.upstreamCallAckCh[id]) && ackKey(self.upstreamCallAckCh[id]) == id))
+//@ lockinv[C16] Conn.replyCallsChsMu: self.replyCallChs != nil && forall(id, string, imp(has(self.replyCallChs, id), replyKeyed(self.replyCallChs[id]) && replyKey(self.replyCallChs[id]) == id))
+//@ typeassume Conn: !replyKeyed(self.downstreamCallCh) && !replyKeyed(self.replyCallCh)
+//@ typeassume Conn: self.state != nil && self.state.cond != nil && self.state.RWMutex != nil
+
+//@ func (*connStatus).WithCloseStatus
+//@   props C16
+//@   requires ctx != nil
+//@   ensures result0 != nil && result1 != nil
+
+//@ func (*Conn).call
+//@   props C16
+//@   requires msg != nil && ctx != nil
+//@   makechan 1 assume ackKeyed(ch) && ackKey(ch) == msg.CallID
+//@   assert call Conn).send: has(c.upstreamCallAckCh, msg.CallID) && unheld(c.upstreamCallAckMu)   // registered before the call can be acknowledged
+//@   ensures imp(result1 == nil, result0.CallID == msg.CallID)
+
+//@ func (*Conn).subscribeReply
+//@   props C16
+//@   makechan 1 assume replyKeyed(ch) && replyKey(ch) == requestID
+//@   ensures imp(result1 == nil, replyKeyed(result0) && replyKey(result0) == requestID && has(c.replyCallChs, requestID))
+
+//@ func (*Conn).receiveReplyCall
+//@   props C16
+//@   requires ctx != nil && replyKeyed(ch)
+//@   ensures imp(result1 == nil, result0 != nil && result0.RequestCallID == replyKey(ch))
+
+//@ func (*Conn).SendCallAndWaitReplayCall
+//@   props C16
+//@   requires ctx != nil && request != nil
+//@   ghostvar cid string = ""
+//@   after call global randomString: cid = res0
+//@   assert call Conn).call: arg2.CallID == cid && arg2.RequestCallID == ""
+//@   ensures imp(result1 == nil, result0 != nil && result0.RequestCallID == cid)
+
+//@ func (*Conn).SendCall
+//@   props C16
+//@   requires ctx != nil && request != nil
+//@   ghostvar cid string = ""
+//@   after call global randomString: cid = res0
+//@   assert call Conn).call: arg2.CallID == cid && arg2.RequestCallID == "" && arg2.DestinationNodeID == request.DestinationNodeID && arg2.Name == request.Name && arg2.Type == request.Type && arg2.Payload == request.Payload
+//@   ensures imp(result1 == nil, result0 == cid)
+
+//@ func (*Conn).SendReplyCall
+//@   props C16
+//@   requires ctx != nil && request != nil
+//@   ghostvar cid string = ""
+//@   after call global randomString: cid = res0
+//@   assert call Conn).call: arg2.CallID == cid && arg2.RequestCallID == request.RequestCallID && arg2.DestinationNodeID == request.DestinationNodeID && arg2.Name == request.Name && arg2.Type == request.Type && arg2.Payload == request.Payload
+//@   ensures imp(result1 == nil, result0 == cid)
+
+//@ func (*Conn).readUpstreamCallAckLoop
+//@   props C16
+//@   assert send: !has(c.upstreamCallAckCh, v.CallID) && unheld(c.upstreamCallAckMu)   // one delivery per registration, never under the lock
+
+//@ func (*Conn).readDownstreamCallLoop
+//@   props C16
+//@   ghostvar consulted bool = true
+//@   after call ReceiveDownstreamCall: consulted = (res0.RequestCallID == "")
+//@   after call (*sync.RWMutex).Lock: consulted = true
+//@   loop 1 invariant consulted   // every reply call is looked up in the reply table before the next message is taken
